@@ -32,7 +32,10 @@ def const_tree(c):
                 return ("const", "fn:" + ty_str(c["ty"]))
             if "fbits" in v:
                 return ("const", "fbits:%d" % v["fbits"])
-            return ("const", "val:" + _freeze_str(v))
+            js = _freeze_str(v)
+            # consumers decode "val:" constants as JSON: a value too large to carry along is marked opaque instead of
+            # being cut off in the middle
+            return ("const", ("val:" + js) if len(js) <= 4000 else ("bigval:%d:%s" % (len(js), js[:80])))
         return ("const", v)
     if "promoted" in c:
         return ("promoted", c["promoted"])
@@ -48,7 +51,7 @@ def const_tree(c):
 
 def _freeze_str(v):
     import json
-    return json.dumps(v, sort_keys=True)[:300]
+    return json.dumps(v, sort_keys=True)
 
 
 def mk_field(base, i):
